@@ -227,8 +227,10 @@ class Stats(object):
         self.samples = []
         self.lock_edges = set()
         self.per_harness = {}
+        self.cases = 0           # extra evaluations reported by harnesses that loop over inputs
 
     def merge(self, o):
+        self.cases += o.cases
         self.executions += o.executions
         self.transitions += o.transitions
         self.fps |= o.fps
@@ -269,6 +271,7 @@ def explore(h, pi, stack, bound, budget, order="rr", jump=False, rerun_stride=50
         st.executions += 1
         ph["executions"] += 1
         st.transitions += x.steps
+        st.cases += int(x.obs.get("_cases", 0))
         st.fps |= x.fps
         st.ends[x.end] = st.ends.get(x.end, 0) + 1
         if x.end == "livelock":
